@@ -21,7 +21,7 @@ from mulgrids import mulgrid
 TASK_TIMEOUT = 600
 CONTRACTS = ['column_plain', 'column_guess_right', 'column_guess_neighbour', 'column_guess_far', 'column_bounds_rectangle',
              'column_bounds_polygon', 'column_subset', 'column_qtree', 'column_guess_qtree', 'column_subset_guess',
-             'column_bounds_guess_qtree', 'column_subset_qtree', 'column_contains_result',
+             'column_bounds_guess_qtree', 'column_subset_qtree', 'column_scattered_subset_qtree', 'column_contains_result',
              'block_3d', 'block_3d_qtree', 'block_3d_blockmap', 'block_contains_point',
              'track_shape', 'track_spurious_column', 'track_missing_column', 'track_point_on_line', 'track_entry_exit',
              'track_order', 'track_abut', 'track_length_sum', 'track_dense_sampling']
@@ -198,6 +198,11 @@ def make_geo(spec):
                                     atmos_type=spec['atmos_type'])
     else:
         geo = mulgrid(os.path.join(REPO, 'tests', 'mulgrid', spec['file']))
+        if spec.get('fix'):
+            # g3.dat is shipped with 20 connections missing and an orphan node (it is the test input of check()):
+            # make it a valid geometry first (check(fix) does not refresh the neighbour sets, hence the second call)
+            geo.check(fix=True, silent=True)
+            geo.identify_neighbours()
     if spec.get('refine'):
         geo.refine([c for c in geo.columnlist[spec['refine']['offset']::spec['refine']['every']]])
     if spec.get('surfaces'):
@@ -313,7 +318,16 @@ def point_contracts(geo, O, R, rs, npoints, aids):
                  ('column_bounds_guess_qtree', {'bounds': bpoly, 'guess': far, 'qtree': qtree})]
         if truth is not None: calls.insert(1, ('column_guess_right', {'guess': truth}))
         if i % 8 == 0:
-            calls.append(('column_subset_qtree', {'columns': subset, 'qtree': geo.column_quadtree(subset)}))
+            # a quadtree over a column subset: a contiguous patch around the answer, and the scattered subset
+            start = ti if ti is not None else rs.randint(O.ncol)
+            patch, frontier = set([start]), [start]
+            while frontier and len(patch) < 40:
+                j = frontier.pop(0)
+                for q in sorted(O.nbr[j]):
+                    if q not in patch: patch.add(q); frontier.append(q)
+            patchcols = [cols[j] for j in sorted(patch)]
+            calls.append(('column_subset_qtree', {'columns': patchcols, 'qtree': geo.column_quadtree(patchcols)}))
+            calls.append(('column_scattered_subset_qtree', {'columns': subset, 'qtree': geo.column_quadtree(subset)}))
         for cname, kw in calls:
             if cname == 'column_bounds_polygon' and bpoly is None: continue
             if cname == 'column_bounds_guess_qtree' and bpoly is None: kw = {'bounds': brect, 'guess': far, 'qtree': qtree}
@@ -375,7 +389,7 @@ def point_contracts(geo, O, R, rs, npoints, aids):
             if ti is not None:
                 probes = []
                 if want is not None:
-                    probes.append((want, True, ''))
+                    probes.append((want, True, '-raised-top' if z > b[0] else ''))
                     if k + 1 < len(b): probes.append((O.block_name(k + 1, ti), False, ''))
                     if k - 1 >= 1 and z < b[0]: probes.append((O.block_name(k - 1, ti), False, ''))
                     if O.nbr[ti]: probes.append((O.block_name(k, sorted(O.nbr[ti])[0]), False, ''))
@@ -438,7 +452,7 @@ def line_contracts(geo, O, R, rs, nlines, ndense):
         ptol = O.ptol
         clen = dict((ci, sum(t1 - t0 for t0, t1 in iv) * L) for ci, iv in clip.items())
         inside_len = sum(clen.values())
-        thr = dict((ci, 1.e-3 * O.maxside[ci]) for ci in clip)
+        thr = dict((int(ci), 1.e-3 * O.maxside[ci]) for ci in set(clip) | set(int(c) for c in cand))
         R.distinct.add((R.tag, 'line', lk, min(len(clip), 5), inside_len < L - ptol))
         R.evals['track_shape'] += 1
         try:
@@ -585,7 +599,7 @@ def main():
             7: (300, 60, 100, 6000, 800, 400)}
     for gi in range(1, 8):
         qp, ql, qc, tp, tl, tc = plan[gi]
-        specs.append(({'kind': 'file', 'file': 'g%d.dat' % gi, 'seed': rnd.randrange(1 << 30)}, qp if quick else tp, ql if quick else tl, qc if quick else tc))
+        specs.append(({'kind': 'file', 'file': 'g%d.dat' % gi, 'fix': gi == 3, 'seed': rnd.randrange(1 << 30)}, qp if quick else tp, ql if quick else tl, qc if quick else tc))
     # rotated / refined / re-surfaced copies
     variants = [(7, {'rotate': 30.}), (7, {'refine': {'every': 5, 'offset': 1}, 'surfaces': True}), (5, {'rotate': -77.3, 'surfaces': True}),
                 (5, {'refine': {'every': 9, 'offset': 2}}), (6, {'refine': {'every': 11, 'offset': 0}, 'rotate': 12.5}), (1, {'rotate': 90.}),
@@ -596,7 +610,7 @@ def main():
                      (5, {'rotate': round(rnd.uniform(-180, 180), 2)}), (6, {'rotate': round(rnd.uniform(-180, 180), 2), 'surfaces': True}),
                      (3, {'surfaces': True, 'rotate': round(rnd.uniform(-180, 180), 2)}), (4, {'rotate': 180.})]
     for gi, extra in variants:
-        sp = {'kind': 'file', 'file': 'g%d.dat' % gi, 'seed': rnd.randrange(1 << 30)}
+        sp = {'kind': 'file', 'file': 'g%d.dat' % gi, 'fix': gi == 3, 'seed': rnd.randrange(1 << 30)}
         sp.update(extra)
         big = gi in (2, 4)
         if quick: specs.append((sp, 30 if big else 60, 6 if big else 15, 15 if big else 30))
